@@ -531,6 +531,68 @@ end
 """
 
 
+_SITES = [
+    lambda n: f"nope{n}",
+    lambda n: f"{{ ret nope{n} }}",
+    lambda n: f"(let x{n} = {n} that x{n})",
+    lambda n: f"@[intrinsic(i64)] {n}",
+    lambda n: f"({n} : @[intrinsic(nope{n})] _)",
+    lambda n: "@[import()] _",
+    lambda n: f"@[monadic({n})] {n}",
+    lambda n: f"(\"m{n}\" : @[intrinsic(i64)] _)",
+    lambda n: f"(9999999999999999999{n} : @[intrinsic(i64)] _)",
+    lambda n: f"({n} {n})",
+    lambda n: f"(ret {n})",
+    lambda n: f"+Mix{n}()",
+    lambda n: f"{{ fn p{n} q{n} => ret () }}",
+    lambda n: "_",
+    lambda n: "(_ : @[intrinsic(i64)] _)",
+    lambda n: f"{{ fn .mix{n} => ret {n} }}",
+    lambda n: f"@[debug] {n}",
+    lambda n: f"{n}",
+]
+
+
+def gen_mixed_sites(rng):
+    """A right-nested tuple of 2-5 independent diagnostic sites from every phase (resolution,
+    directives, desugaring, typing); half of the time all of one family."""
+    count = rng.range(2, 5)
+    same = rng.chance(1, 2)
+    first = rng.below(len(_SITES))
+    families = [first if same or i == 0 else rng.below(len(_SITES)) for i in range(count)]
+    text = _SITES[families[-1]](count)
+    for index in range(count - 2, -1, -1):
+        text = f"({_SITES[families[index]](index + 1)}, {text})"
+    return text + "\n"
+
+
+_DEFINITIONS = [
+    lambda n: f"  let dup{n} = {n} that\n  let dup{n} = {n}{n} that\n",
+    lambda n: f"  def bad{n} : Int64 = nope{n} that\n",
+    lambda n: f"  def ty{n} : Int64 = \"t{n}\" that\n",
+    lambda n: f"  def hole{n} : Int64 = _ that\n",
+    lambda n: f"  def ! fun{n} (x{n}) : Ret Int64 = ret {n} that\n",
+    lambda n: f"  def Data{n} : VType = data | +Ctor{n} : Nope{n} end that\n",
+    lambda n: f"  def kind{n} : Int64 Int64 = {n} that\n",
+    lambda n: f"  param (p{n} : q{n}) that\n  param (q{n} : p{n}) that\n",
+    lambda n: f"  def dbg{n} : Int64 = @[debug] {n} that\n",
+    lambda n: f"  def fine{n} : Int64 = {n} that\n",
+]
+
+
+def gen_faulty_definitions(rng, builtin_path):
+    """An executable block with 2-5 independent faulty contributions."""
+    count = rng.range(2, 5)
+    same = rng.chance(1, 2)
+    first = rng.below(len(_DEFINITIONS))
+    families = [first if same or i == 0 else rng.below(len(_DEFINITIONS)) for i in range(count)]
+    body = "".join(_DEFINITIONS[f](i + 1) for i, f in enumerate(families))
+    return (f"begin\n  param ((/core; /representations; /system) : @(import(\"{builtin_path}\"))) that\n"
+            "  let (/VType; /Thk; /Ret; /Unit) = core that\n  let (/Scalar = Int64) = representations/i64 that\n"
+            "  let (/stdio; /process) = system that\n  let code : Int64 = 3 that\n"
+            f"{body}  ! (stdio/write_line) \"defs\" {{ ! (process/exit) code }}\nend\n")
+
+
 def write_block_corpus(tree, seed, count):
     """Extra corpus for C16: one shuffled rendering of `count` generated programs."""
     directory = os.path.join(tree, "lib", "zygen")
@@ -561,6 +623,17 @@ def write_block_corpus(tree, seed, count):
         rel = os.path.join("lib", "zygen", f"writers{index}.zy")
         with open(os.path.join(tree, rel), "w") as handle:
             handle.write(gen_shared_sink_writers(rng, builtin))
+        written.append(rel)
+    for index in range(count):
+        rng = Rng(mix(seed, ENGINE, 6000 + index))
+        rel = os.path.join("lib", "zygen", f"sites{index}.zy")
+        with open(os.path.join(tree, rel), "w") as handle:
+            handle.write(gen_mixed_sites(rng))
+        written.append(rel)
+        rng = Rng(mix(seed, ENGINE, 7000 + index))
+        rel = os.path.join("lib", "zygen", f"defs{index}.zy")
+        with open(os.path.join(tree, rel), "w") as handle:
+            handle.write(gen_faulty_definitions(rng, builtin))
         written.append(rel)
     for index in range(max(4, count // 4)):
         rng = Rng(mix(seed, ENGINE, 3000 + index))
